@@ -79,10 +79,10 @@ def entry(pid):
         "evidence_file": f"/verif/evidence/{pid}.json",
         "replay_cmd_template": f"bin/polycheck -p {pid} -explain {{path}}",
         "engine": "polycheck",
-        "technique": tech,
+        "technique": tech + "; plus the shared effect rules on package-level and goroutine-shared state over everything reachable from the anchors (state.go)",
         "level_claimed": {"category": "other", "design_ref": f"DESIGN.md §3 {pid}",
                           "text": "Static necessary conditions only, three-valued per obligation (held / VIOLATION / UNDECIDED). A VIOLATION is raised only on positive evidence in recognised code: a table entry that differs from the oracle, a recognised formula, layout or condition that differs in a detail, a typestate or ownership fact. Code whose shape a rule does not recognise is reported as UNDECIDED in the evidence file and on stdout and does not alarm. Decides: " + dec + ". Does NOT decide: " + undec + ". A pass means these specific ways of breaking the property are absent from the source, not that the behaviour holds."},
-        "level_note": "trusted: go/types, go/packages, go/ssa (x/tools v0.29.0), the std contracts and oracle tables named in the evidence file; no pointer analysis (origin abstraction instead); missing exported anchors, load/type errors and checker panics fail the check; unrecognised shapes are UNDECIDED (exit 0, listed in evidence)",
+        "level_note": "shared STATE obligations (every property): no argument-dependent data kept in package-level memory outside init/Once/lock, every remembered value is a function of its key, no pooled memory in results, no variable shared unsynchronised with a started goroutine, no input text used as a fmt format; trusted: go/types, go/packages, go/ssa (x/tools v0.29.0), the std contracts and oracle tables named in the evidence file; no pointer analysis (origin abstraction instead); missing exported anchors, load/type errors and checker panics fail the check; unrecognised shapes are UNDECIDED (exit 0, listed in evidence)",
     }
 
 m = {
@@ -94,7 +94,7 @@ m = {
  "engines": [{"name": "polycheck", "path": "checker", "serves_properties": sorted(claimed),
               "kind_free_text": "repo-specific static analyser: typed-AST constant tables vs oracles, def-use terms, path conditions, channel typestate and ownership rules over go/ssa (x/tools v0.29.0); rebuilt from source by setup.sh; re-loads /repo's working tree on every run"}],
  "checks": [entry(p) for p in props if p in claimed],
- "notes": "Technique family: static analysis only. Known findings and repaired defects: KNOWN_FINDINGS.txt. Seeded breaking changes (with demonstrations) and which rule catches them: seeded/ and DESIGN.md §8; behaviour-preserving refactors the checks must stay silent on: benign/.",
+ "notes": "Technique family: static analysis only. Known findings and repaired defects: KNOWN_FINDINGS.txt. Seeded breaking changes (with demonstrations) and which rule catches them: seeded/ (200) and DESIGN.md §8; behaviour-preserving refactors the checks must stay silent on: benign/.",
  "not_applicable": [{"property_id": p, "reason": pending_reason} for p in props if p not in claimed],
 }
 json.dump(m, open(os.path.join(V, 'MANIFEST.json'), 'w'), indent=1, ensure_ascii=False)
